@@ -350,6 +350,24 @@ fn make_case_inner(class: u64, idx: u64, seed: u64) -> Case {
             };
             Case { class: "extreme-geometry", w: w as u16, h: h as u16, bpp, compress, data, gen: None }
         }
+        10 => {
+            // uncompressed bitmaps announcing far more pixels than they carry: products at and around 2^30, 2^31, 2^32
+            // pixels or bytes; the data is short, also of exactly the length the announced size has modulo 2^32
+            const DIMS: [(u16, u16); 16] = [(32768, 32768), (65535, 65535), (16384, 65535), (40000, 30000), (32767, 32768), (65535, 16385), (46341, 46341), (65535, 32768), (32768, 16384), (16384, 16384), (65535, 1), (1, 65535), (65535, 4), (46340, 46341), (23170, 23171), (65534, 32769)];
+            let (w, h) = DIMS[(idx % 16) as usize];
+            let bpp = if (idx / 16) % 2 == 0 { 32u16 } else { 16 };
+            let announced = w as u64 * h as u64 * (bpp as u64 / 8);
+            let wrapped = (announced & 0xffff_ffff) as usize;
+            let n = match (idx / 32) % 6 {
+                0 => 0,
+                1 => 1,
+                2 => r.range(2, 4096) as usize,
+                3 => wrapped.min(200_000),
+                4 => (wrapped + r.range(1, 64) as usize).min(200_000),
+                _ => (w as usize * (bpp as usize / 8)).min(200_000) * r.range(1, 3) as usize,
+            };
+            Case { class: "announced-size-extremes", w, h, bpp, compress: false, data: r.bytes(n), gen: None }
+        }
         9 => {
             // small pictures carrying far more data than they need
             let w = r.below(5) as u16;
@@ -442,6 +460,7 @@ pub fn run(cfg: &Cfg) -> Report {
         (7, if cfg.quick() { 0 } else { N_LE3 * 2 * 9 }),
         (8, cfg.n(17 * 36 * 4, 17 * 36 * 200)),
         (9, cfg.n(2_000, 100_000)),
+        (10, cfg.n(16 * 2 * 6 * 4, 16 * 2 * 6 * 400)),
     ];
     for (class, n) in plan {
         if !cfg.wants(class) {
